@@ -4,7 +4,7 @@ import numbers
 
 from hypothesis import strategies as st
 
-from vlib.runner import Violation, call
+from vlib.runner import Violation, call, clone_point
 from checks import gcm_common as G
 
 PID = "C04"
@@ -172,7 +172,9 @@ def check(case):
         classes.add("repeated_pair")
     if any(Gx.degree(v) == 0 for v in range(N)):
         classes.add("isolated_vertex")
-    # ---- backward
+    # ---- backward (possibly on a copy / pickle round trip of the converted network)
+    net = clone_point(net, case)
+    Gx = net.G
     snap = snapshot(Gx)
     if case.get("queries"):
         # asking the network object questions (its cliques, whether it has edges) changes nothing
